@@ -638,4 +638,5 @@ JUDGES = {
     'C17': mk(['c17']),
     'C18': judge_c18,
     'C19': mk(['c19']),
+    'C20': mk(['c01', 'c02', 'c10']),     # per-instance reference semantics: an instance's results depend on its own history only
 }
